@@ -77,7 +77,10 @@ Definition set_flag (f : flags) (b : buf) := {| b_flag := f; b_size := b_size b;
 Definition set_data (m : mem) (b : buf) := {| b_flag := b_flag b; b_size := b_size b; b_data := m |}.
 
 (* ------------------------------------------------------------------ the LTS *)
-Inductive msg := MStart (i : nat) | MEnd (i : nat).
+Inductive msg := MStart (i : nat) | MEnd (i : nat)
+               | MTask (i : nat).   (* TASK_START for a tid the recorder already knows: the task exec()ed a new image;
+                                       flush_old_shmem flushes the FIRST announced buffer of the tid (`i`, a ghost
+                                       annotation: the buffer the old image was recording into) *)
 Inductive ppc :=
 | PIdle                 (* between two records *)
 | PCheck (r : rec)      (* get_shmem_buffer: does it fit? *)
@@ -92,6 +95,9 @@ Inductive ppc :=
 | PBumpPl (r : rec)     (* curr_buf->size += ALIGN(size, 8) *)
 | PPrepStart            (* prepare_shmem_buffer: both buffers exist; REC_START for index 0 *)
 | PPrepFlag             (* prepare_shmem_buffer: buffer[0]->flag = RECORDING | NEW (curr = 0) *)
+| PXStart (b o : nat)   (* the image exec()ed in this task sets itself up: its ring starts at index b; REC_START b *)
+| PXFlag (b o : nat)    (*   buffer[b]->flag = RECORDING | NEW *)
+| PXTask (b o : nat)    (*   TASK_START: the recorder will flush the old image's buffer o (curr = b from now on) *)
 | PDark.                (* nothing this thread does can reach the recorder any more: it is done (mtd_dtor,
                            shmem.done), or the message pipe was closed (mcount_trace_finish, fd = -1) and it
                            moved on to a buffer whose REC_START was never delivered *)
@@ -105,36 +111,40 @@ Record st := {
   file : list N;          (* <tid>.dat *)
   pc : ppc;
   todo : list rec;        (* records the thread is still going to emit *)
-  done : list rec         (* ghost: records completely stored (both size updates done) *)
+  done : list rec;        (* ghost: records completely stored (both size updates done) *)
+  base : nat              (* where the running image's own ring starts in `bufs` (0 until the task exec()s) *)
 }.
 
 Definition with_pc (p : ppc) (s : st) : st :=
   {| bufs := bufs s; curr := curr s; chan := chan s; shl := shl s; wl := wl s; file := file s;
-     pc := p; todo := todo s; done := done s |}.
+     pc := p; todo := todo s; done := done s; base := base s |}.
 Definition with_bufs (b : list buf) (s : st) : st :=
   {| bufs := b; curr := curr s; chan := chan s; shl := shl s; wl := wl s; file := file s;
-     pc := pc s; todo := todo s; done := done s |}.
+     pc := pc s; todo := todo s; done := done s; base := base s |}.
 Definition with_curr (c : option nat) (s : st) : st :=
   {| bufs := bufs s; curr := c; chan := chan s; shl := shl s; wl := wl s; file := file s;
-     pc := pc s; todo := todo s; done := done s |}.
+     pc := pc s; todo := todo s; done := done s; base := base s |}.
 Definition with_chan (c : list msg) (s : st) : st :=
   {| bufs := bufs s; curr := curr s; chan := c; shl := shl s; wl := wl s; file := file s;
-     pc := pc s; todo := todo s; done := done s |}.
+     pc := pc s; todo := todo s; done := done s; base := base s |}.
 Definition with_shl (l : list nat) (s : st) : st :=
   {| bufs := bufs s; curr := curr s; chan := chan s; shl := l; wl := wl s; file := file s;
-     pc := pc s; todo := todo s; done := done s |}.
+     pc := pc s; todo := todo s; done := done s; base := base s |}.
 Definition with_wl (l : list nat) (s : st) : st :=
   {| bufs := bufs s; curr := curr s; chan := chan s; shl := shl s; wl := l; file := file s;
-     pc := pc s; todo := todo s; done := done s |}.
+     pc := pc s; todo := todo s; done := done s; base := base s |}.
 Definition with_file (f : list N) (s : st) : st :=
   {| bufs := bufs s; curr := curr s; chan := chan s; shl := shl s; wl := wl s; file := f;
-     pc := pc s; todo := todo s; done := done s |}.
+     pc := pc s; todo := todo s; done := done s; base := base s |}.
 Definition with_todo (t : list rec) (s : st) : st :=
   {| bufs := bufs s; curr := curr s; chan := chan s; shl := shl s; wl := wl s; file := file s;
-     pc := pc s; todo := t; done := done s |}.
+     pc := pc s; todo := t; done := done s; base := base s |}.
 Definition with_done (d : list rec) (s : st) : st :=
   {| bufs := bufs s; curr := curr s; chan := chan s; shl := shl s; wl := wl s; file := file s;
-     pc := pc s; todo := todo s; done := d |}.
+     pc := pc s; todo := todo s; done := d; base := base s |}.
+Definition with_base (b : nat) (s : st) : st :=
+  {| bufs := bufs s; curr := curr s; chan := chan s; shl := shl s; wl := wl s; file := file s;
+     pc := pc s; todo := todo s; done := done s; base := b |}.
 
 (* "always use first buffer available": index of the first buffer without RECORDING, or the
    length of the ring (then a fresh shm object is created, zero filled, flag 0) *)
@@ -143,6 +153,10 @@ Fixpoint find_free (l : list buf) : nat :=
   | [] => 0
   | b :: t => if f_rec (b_flag b) then S (find_free t) else 0
   end.
+
+(* the running image sees only its own shm objects: the ring from index `b` on *)
+Definition find_free_from (b : nat) (l : list buf) : nat :=
+  if b <=? length l then b + find_free (skipn b l) else length l.
 
 (* "shrink unused buffers" *)
 Definition count_written (l : list buf) : nat :=
@@ -178,7 +192,7 @@ Definition pstep (single : bool) (cap : nat) (s : st) : st :=
       | None => with_pc (PPick r) s
       end
   | PPick r =>
-      let i := find_free (bufs s) in
+      let i := find_free_from (base s) (bufs s) in
       let l := if i <? length (bufs s) then bufs s else bufs s ++ [fresh_buf] in
       with_pc (PZero r) (with_curr (Some i) (with_bufs (upd i (fun b => set_flag (or_rec (b_flag b)) b) l) s))
   | PZero r =>
@@ -201,6 +215,11 @@ Definition pstep (single : bool) (cap : nat) (s : st) : st :=
       with_pc PIdle (with_done (done s ++ [r])
                        (on_cur (fun b => set_size (b_size b + off + align8 (length (r_pl r))) b) s))
   | PDark => s
+  | PXStart b o => with_pc (PXFlag b o) (with_chan (chan s ++ [MStart b]) s)
+  | PXFlag b o =>
+      with_pc (PXTask b o)
+        (with_bufs (upd b (set_flag {| f_new := true; f_written := false; f_rec := true |}) (bufs s)) s)
+  | PXTask b o => with_pc PIdle (with_curr (Some b) (with_chan (chan s ++ [MTask o]) s))
   | PPrepStart => with_pc PPrepFlag (with_chan (chan s ++ [MStart 0]) s)
   | PPrepFlag =>
       with_pc PIdle (with_curr (Some 0)
@@ -227,6 +246,14 @@ Definition pstep_closed (single : bool) (cap : nat) (s : st) : st :=
   | PPrepStart => with_pc PDark (with_todo [] s)                    (* ... the thread's very first buffer *)
   | _ => pstep single cap s
   end.
+(* exec between two hook calls: the image is replaced.  The old image's current buffer stays announced (no REC_END);
+   its other shm objects are out of reach of the new image, which gets a ring of its own (new session id):
+   two fresh buffers appended, and `base` moved there.  The rest of `todo` is what the new image records. *)
+Definition xstep (s : st) : st :=
+  match pc s, curr s with
+  | PIdle, Some c => with_pc (PXStart (length (bufs s)) c) (with_base (length (bufs s)) (with_bufs (bufs s ++ [fresh_buf; fresh_buf]) s))
+  | _, _ => s
+  end.
 (* mtd_dtor between two hook calls: a normal thread end sends REC_END (shmem_finish); after a finish /
    signal trigger the pipe is closed first, so the REC_END is lost.  Later hook calls record nothing. *)
 Definition dstep (closed : bool) (s : st) : st :=
@@ -252,6 +279,11 @@ Definition rstep (s : st) : st :=
   | [] => s
   | MStart i :: ch => with_shl (shl s ++ [i]) (with_chan ch s)
   | MEnd i :: ch => queue_if i (with_shl (remove_first i (shl s)) (with_chan ch s))
+  | MTask _ :: ch =>         (* flush_old_shmem: the first entry of the tid *)
+      match shl s with
+      | j :: r => queue_if j (with_shl r (with_chan ch s))
+      | [] => with_chan ch s
+      end
   end.
 
 (* writer: write_buffer (append data[0..size), size = 0), then flag = WRITTEN *)
@@ -267,11 +299,13 @@ Definition wstep (s : st) : st :=
 
 Inductive lab := LP | LR | LW
                 | LPC            (* producer step with the pipe closed *)
-                | LD | LDC.      (* mtd_dtor with the pipe open / closed *)
+                | LD | LDC       (* mtd_dtor with the pipe open / closed *)
+                | LX.            (* exec *)
 Definition step (single : bool) (cap : nat) (l : lab) (s : st) : st :=
   match l with
   | LP => pstep single cap s | LR => rstep s | LW => wstep s
   | LPC => pstep_closed single cap s | LD => dstep false s | LDC => dstep true s
+  | LX => xstep s
   end.
 Definition run (single : bool) (cap : nat) (sched : list lab) (s : st) : st :=
   fold_left (fun s l => step single cap l s) sched s.
@@ -293,16 +327,142 @@ Definition init (recs : list rec) : st :=
   {| bufs := [ {| b_flag := {| f_new := true; f_written := false; f_rec := true |}; b_size := 0; b_data := zero_mem |};
                fresh_buf ];
      curr := Some 0; chan := [MStart 0]; shl := []; wl := []; file := [];
-     pc := PIdle; todo := recs; done := [] |}.
+     pc := PIdle; todo := recs; done := []; base := 0 |}.
 
 (* before the thread's first hook call has set it up (mcount_prepare -> prepare_shmem_buffer) *)
 Definition init0 (recs : list rec) : st :=
   {| bufs := [fresh_buf; fresh_buf]; curr := None; chan := []; shl := []; wl := []; file := [];
-     pc := PPrepStart; todo := recs; done := [] |}.
+     pc := PPrepStart; todo := recs; done := []; base := 0 |}.
 
 (* the window between the two size updates of a record with payload *)
 Definition in_window (single : bool) (s : st) : bool :=
   negb single && match pc s with PCopy _ | PBumpPl _ => true | _ => false end.
+
+(* ------------------------------------------------------------------ the faithful machine for a closed pipe *)
+(* In the LTS above a thread that lost its connection to the recorder is abstracted to `PDark`.  Here it is not:
+   with the pipe closed every store of the thread still happens (into buffers the recorder never hears of), only
+   the messages are dropped.  ProofsDark.v shows that both machines leave the same data file. *)
+(* the producer's real step while the pipe is closed: every store happens, nothing is sent *)
+Definition pstep_mute (single : bool) (cap : nat) (s : st) : st := with_chan (chan s) (pstep single cap s).
+
+(* the faithful machine: the closing of the pipe is part of the state *)
+Inductive flab := FP | FR | FW | FC | FD.
+Definition fstep (single : bool) (cap : nat) (l : flab) (x : st * bool) : st * bool :=
+  let '(s, closed) := x in
+  match l with
+  | FP => (if closed then pstep_mute single cap s else pstep single cap s, closed)
+  | FR => (rstep s, closed)
+  | FW => (wstep s, closed)
+  | FC => (s, true)
+  | FD => (dstep closed s, closed)
+  end.
+Definition frun single cap (sched : list flab) (x : st * bool) := fold_left (fun x l => fstep single cap l x) sched x.
+(* the same schedule for the abstract machine of the theorems *)
+Definition alab (closed : bool) (l : flab) : list lab :=
+  match l with
+  | FP => [if closed then LPC else LP] | FR => [LR] | FW => [LW] | FC => [] | FD => [if closed then LDC else LD]
+  end.
+Fixpoint asched (closed : bool) (sched : list flab) : list lab :=
+  match sched with
+  | [] => []
+  | l :: r => alab closed l ++ asched (match l with FC => true | _ => closed end) r
+  end.
+
+
+(* ------------------------------------------------------------------ several threads, one recorder *)
+(* Every thread has its own ring of buffers, its own data file and its own program; all of them write to
+   the one message pipe, and the recorder keeps ONE shmem_list and ONE buf_write_list for all of them
+   (entries carry the tid, as the shm names "/uftrace-<sid>-<tid>-<idx>" do).  A thread's step is the
+   single-thread step on its own view (`proj`); the messages it produces are appended to the common pipe.
+   The recorder's main thread handles the head of the pipe; a writer takes the first queued buffer of
+   the tid it serves (writer_thread: per-tid, in queue order). *)
+Record thr := { h_bufs : list buf; h_curr : option nat; h_pc : ppc; h_todo : list rec; h_done : list rec;
+                h_file : list N; h_base : nat }.
+Record mst := { m_thr : list thr; m_chan : list (nat * msg); m_shl : list (nat * nat); m_wl : list (nat * nat) }.
+Definition thr0 : thr := {| h_bufs := []; h_curr := None; h_pc := PDark; h_todo := []; h_done := []; h_file := []; h_base := 0 |}.
+Definition sel {A} (t : nat) (l : list (nat * A)) : list A := map snd (filter (fun x => Nat.eqb (fst x) t) l).
+Definition proj (t : nat) (M : mst) : st :=
+  let h := nth t (m_thr M) thr0 in
+  {| bufs := h_bufs h; curr := h_curr h; chan := sel t (m_chan M); shl := sel t (m_shl M); wl := sel t (m_wl M);
+     file := h_file h; pc := h_pc h; todo := h_todo h; done := h_done h; base := h_base h |}.
+Definition thr_of (s : st) : thr :=
+  {| h_bufs := bufs s; h_curr := curr s; h_pc := pc s; h_todo := todo s; h_done := done s; h_file := file s; h_base := base s |}.
+Definition set_thr (t : nat) (h : thr) (M : mst) : mst :=
+  {| m_thr := upd t (fun _ => h) (m_thr M); m_chan := m_chan M; m_shl := m_shl M; m_wl := m_wl M |}.
+(* a step of thread t: `f` on its own view; what it sends goes to the end of the common pipe *)
+Definition lift_p (f : st -> st) (t : nat) (M : mst) : mst :=
+  if t <? length (m_thr M) then
+    let s := proj t M in
+    let s' := f s in
+    {| m_thr := upd t (fun _ => thr_of s') (m_thr M);
+       m_chan := m_chan M ++ map (pair t) (skipn (length (chan s)) (chan s'));
+       m_shl := m_shl M; m_wl := m_wl M |}
+  else M.
+Fixpoint remove_first_pair (x : nat * nat) (l : list (nat * nat)) : list (nat * nat) :=
+  match l with
+  | [] => []
+  | y :: r => if Nat.eqb (fst y) (fst x) && Nat.eqb (snd y) (snd x) then r else y :: remove_first_pair x r
+  end.
+Definition mqueue_if (t i : nat) (M : mst) : mst :=
+  let b := getb i (h_bufs (nth t (m_thr M) thr0)) in
+  if f_rec (b_flag b) && negb (Nat.eqb (b_size b) 0)
+  then {| m_thr := m_thr M; m_chan := m_chan M; m_shl := m_shl M; m_wl := m_wl M ++ [(t, i)] |} else M.
+(* the first entry of tid t in a list (a writer serving tid t; flush_old_shmem) *)
+Fixpoint take_first (t : nat) (l : list (nat * nat)) : option (nat * list (nat * nat)) :=
+  match l with
+  | [] => None
+  | (u, i) :: r => if Nat.eqb u t then Some (i, r)
+                   else match take_first t r with Some (j, r') => Some (j, (u, i) :: r') | None => None end
+  end.
+(* read_record_mmap: the head of the pipe *)
+Definition mrstep (M : mst) : mst :=
+  match m_chan M with
+  | [] => M
+  | (t, MStart i) :: ch => {| m_thr := m_thr M; m_chan := ch; m_shl := m_shl M ++ [(t, i)]; m_wl := m_wl M |}
+  | (t, MEnd i) :: ch =>
+      mqueue_if t i {| m_thr := m_thr M; m_chan := ch; m_shl := remove_first_pair (t, i) (m_shl M); m_wl := m_wl M |}
+  | (t, MTask _) :: ch =>
+      match take_first t (m_shl M) with
+      | Some (j, r) => mqueue_if t j {| m_thr := m_thr M; m_chan := ch; m_shl := r; m_wl := m_wl M |}
+      | None => {| m_thr := m_thr M; m_chan := ch; m_shl := m_shl M; m_wl := m_wl M |}
+      end
+  end.
+Definition mwrite (release : bool) (t i : nat) (M : mst) : mst :=
+  set_thr t (thr_of (write_one release i (proj t M))) M.
+Definition mwstep (t : nat) (M : mst) : mst :=
+  if t <? length (m_thr M) then
+    match take_first t (m_wl M) with
+    | None => M
+    | Some (i, w) => mwrite true t i {| m_thr := m_thr M; m_chan := m_chan M; m_shl := m_shl M; m_wl := w |}
+    end
+  else M.
+Inductive mlab := MP (t : nat) | MPC (t : nat) | MD (t : nat) | MDC (t : nat) | MR | MW (t : nat) | MX (t : nat).
+Definition mstep (single : bool) (cap : nat) (l : mlab) (M : mst) : mst :=
+  match l with
+  | MP t => lift_p (pstep single cap) t M
+  | MPC t => lift_p (pstep_closed single cap) t M
+  | MD t => lift_p (dstep false) t M
+  | MDC t => lift_p (dstep true) t M
+  | MR => mrstep M
+  | MW t => mwstep t M
+  | MX t => lift_p xstep t M
+  end.
+Definition mrun (single : bool) (cap : nat) (sched : list mlab) (M : mst) : mst :=
+  fold_left (fun M l => mstep single cap l M) sched M.
+(* end of the recording: drain the pipe, flush_shmem_list, record_remaining_buffer - over all tids *)
+Definition mdrain (M : mst) : mst := iter (length (m_chan M)) mrstep M.
+Definition mflush (M : mst) : mst :=
+  fold_left (fun M x => mqueue_if (fst x) (snd x) M) (m_shl M)
+            {| m_thr := m_thr M; m_chan := m_chan M; m_shl := []; m_wl := m_wl M |}.
+Definition mremaining (M : mst) : mst :=
+  fold_left (fun M x => if fst x <? length (m_thr M) then mwrite false (fst x) (snd x) M else M) (m_wl M)
+            {| m_thr := m_thr M; m_chan := m_chan M; m_shl := m_shl M; m_wl := [] |}.
+Definition mfinish (M : mst) : mst := mremaining (mflush (mdrain M)).
+(* every thread before its first hook call *)
+Definition minit (recss : list (list rec)) : mst :=
+  {| m_thr := map (fun recs => thr_of (init0 recs)) recss; m_chan := []; m_shl := []; m_wl := [] |}.
+Definition mfile (t : nat) (M : mst) : list N := h_file (nth t (m_thr M) thr0).
+Definition mdone (t : nat) (M : mst) : list rec := h_done (nth t (m_thr M) thr0).
 
 (* ------------------------------------------------------------------ the property checker *)
 Fixpoint list_eqb (a b : list N) : bool :=
@@ -564,7 +724,7 @@ Fixpoint bad_indices {A} (ok : A -> bool) (l : list A) (i : nat) : list nat :=
 (* visible events of the producer: a change of (size, flag) of some buffer *)
 Definition visible (single : bool) (s : st) : bool :=
   match pc s with
-  | PPick _ | PPrepFlag => true
+  | PPick _ | PPrepFlag | PXFlag _ _ => true
   | PBump r => negb (single && has_pl r)
   | PBumpPl r => single || negb (Nat.eqb (align8 (length (r_pl r))) 0)
   | _ => false
@@ -609,6 +769,8 @@ Record tcase := {
   tc_close : nat;      (* the pipe is closed (as by another thread's mcount_trace_finish) before this op; >= #ops: never *)
   tc_end : N;          (* after the last op: 0 nothing, 1 mtd_dtor after a finish / signal trigger (pipe closed),
                           2 mtd_dtor of a normal thread end (pipe open) *)
+  tc_ops2 : list op; tc_sync2 : list bool;     (* not []: after tc_ops the task exec()s an image that runs these hook
+                                                  calls (tc_kill / tc_flush then concern the second image) *)
   (* what the implementation showed *)
   tc_shl : list nat; tc_shf : list N; tc_wl : list nat; tc_file : list N }.
 
@@ -627,13 +789,65 @@ Fixpoint tie_ops (single : bool) (cap : nat) (i close_at : nat) (groups : list (
                         (run single cap (p_until_done single closed cap (fuel_for (length g)) n s1) s1)
       end
   end.
+(* the same with the faithful machine: after the pipe was closed the producer's stores are all made (and
+   counted as visible events, as the driver sees them in shared memory) *)
+Definition fpstep (closed single : bool) (cap : nat) (s : st) : st :=
+  if closed then pstep_mute single cap s else pstep single cap s.
+Fixpoint pf_until_done (single closed : bool) (cap fuel n : nat) (s : st) : st :=
+  match fuel with
+  | O => s
+  | S k => match pc s with
+           | PDark => s
+           | PIdle => if n <=? length (done s) then s else pf_until_done single closed cap k n (fpstep closed single cap s)
+           | _ => pf_until_done single closed cap k n (fpstep closed single cap s)
+           end
+  end.
+Fixpoint pf_until_events (single closed : bool) (cap fuel e n : nat) (s : st) : st :=
+  match fuel, e with
+  | O, _ => s
+  | _, O => s
+  | S k, S e' =>
+      match pc s with
+      | PDark => s
+      | PIdle => if n <=? length (done s) then s else pf_until_events single closed cap k e n (fpstep closed single cap s)
+      | _ => pf_until_events single closed cap k (if visible single s then e' else e) n (fpstep closed single cap s)
+      end
+  end.
+Fixpoint tie_ops_f (single : bool) (cap : nat) (i close_at : nat) (groups : list (list rec)) (syncs : list bool)
+         (kill : option nat) (s : st) : st :=
+  match groups with
+  | [] => s
+  | g :: rest =>
+      let closed := close_at <=? i in
+      let s1 := if hd false syncs then run single cap (catch_up s) s else s in
+      let n := length (done s1) + length g in
+      match rest, kill with
+      | [], Some e => pf_until_events single closed cap (fuel_for (length g)) e n s1
+      | _, _ => tie_ops_f single cap (S i) close_at rest (List.tl syncs) kill
+                          (pf_until_done single closed cap (fuel_for (length g)) n s1)
+      end
+  end.
 Definition tc_groups (tc : tcase) : list (list rec) :=
   let '(stk, rss) := ops_run [] (tc_ops tc) in
-  if tc_flush tc then rss ++ [segv_flush stk] else rss.
+  match tc_ops2 tc with
+  | [] => if tc_flush tc then rss ++ [segv_flush stk] else rss
+  | _ => rss
+  end.
+Definition tc_groups2 (tc : tcase) : list (list rec) :=
+  match tc_ops2 tc with
+  | [] => []
+  | ops2 => let '(stk, rss) := ops_run [] ops2 in if tc_flush tc then rss ++ [segv_flush stk] else rss
+  end.
 Definition tc_state (tc : tcase) : st :=
-  let s := tie_ops (tc_single tc) (tc_cap tc) 0 (tc_close tc) (tc_groups tc) (tc_sync tc) (tc_kill tc)
-                   (init0 (concat (tc_groups tc))) in
-  if (tc_end tc =? 1)%N then dstep true s else if (tc_end tc =? 2)%N then dstep false s else s.
+  let s0 := init0 (concat (tc_groups tc) ++ concat (tc_groups2 tc)) in
+  match tc_ops2 tc with
+  | [] =>
+      let s := tie_ops (tc_single tc) (tc_cap tc) 0 (tc_close tc) (tc_groups tc) (tc_sync tc) (tc_kill tc) s0 in
+      if (tc_end tc =? 1)%N then dstep true s else if (tc_end tc =? 2)%N then dstep false s else s
+  | _ =>
+      let s1 := tie_ops (tc_single tc) (tc_cap tc) 0 (tc_close tc) (tc_groups tc) (tc_sync tc) None s0 in
+      tie_ops (tc_single tc) (tc_cap tc) 0 (tc_close tc) (tc_groups2 tc) (tc_sync2 tc) (tc_kill tc) (xstep s1)
+  end.
 Definition obs (s : st) : list nat * list N * list nat * list N :=
   let s1 := drain s in
   let s2 := flush_shmem_list s1 in
@@ -645,21 +859,112 @@ Fixpoint nat_list_eqb (a b : list nat) : bool :=
   | x :: a', y :: b' => Nat.eqb x y && nat_list_eqb a' b'
   | _, _ => false
   end.
+Definition tc_state_f (tc : tcase) : st :=
+  let s0 := init0 (concat (tc_groups tc) ++ concat (tc_groups2 tc)) in
+  match tc_ops2 tc with
+  | [] =>
+      let s := tie_ops_f (tc_single tc) (tc_cap tc) 0 (tc_close tc) (tc_groups tc) (tc_sync tc) (tc_kill tc) s0 in
+      if (tc_end tc =? 1)%N then dstep true s else if (tc_end tc =? 2)%N then dstep false s else s
+  | _ =>
+      let s1 := tie_ops_f (tc_single tc) (tc_cap tc) 0 (tc_close tc) (tc_groups tc) (tc_sync tc) None s0 in
+      tie_ops_f (tc_single tc) (tc_cap tc) 0 (tc_close tc) (tc_groups2 tc) (tc_sync2 tc) (tc_kill tc) (xstep s1)
+  end.
 (* model = implementation on this case *)
+Definition shl_agree (tc : tcase) (a : list nat) : bool :=
+  match tc_ops2 tc with
+  | [] => nat_list_eqb a (tc_shl tc)
+  | _ => Nat.eqb (length a) (length (tc_shl tc))     (* the second session numbers its buffers from 0 again *)
+  end.
+Definition agrees_f (tc : tcase) : bool :=
+  let '(a, f, b, c) := obs (tc_state_f tc) in
+  shl_agree tc a && list_eqb f (tc_shf tc) && nat_list_eqb b (tc_wl tc) && list_eqb c (tc_file tc).
 Definition agrees (tc : tcase) : bool :=
   let '(a, f, b, c) := obs (tc_state tc) in
-  nat_list_eqb a (tc_shl tc) && list_eqb f (tc_shf tc) && nat_list_eqb b (tc_wl tc) && list_eqb c (tc_file tc).
+  shl_agree tc a && list_eqb f (tc_shf tc) && nat_list_eqb b (tc_wl tc) && list_eqb c (tc_file tc).
 (* the property on the implementation's file: whole records, a prefix of the execution; after a
    crash handler that ran to completion: the whole eager trace (every open call included) *)
 Definition ok_case (tc : tcase) : bool :=
-  if tc_flush tc && (length (tc_ops tc) <=? tc_close tc) then match_recs (eager [] (tc_ops tc)) (tc_file tc)
-  else ok_prefix (eager [] (tc_ops tc)) (tc_file tc).
+  match tc_ops2 tc with
+  | [] =>
+      if tc_flush tc && (length (tc_ops tc) <=? tc_close tc) then match_recs (eager [] (tc_ops tc)) (tc_file tc)
+      else ok_prefix (eager [] (tc_ops tc)) (tc_file tc)
+  | ops2 =>
+      (* the old image ran all its hook calls (what it had written lazily stays); then the new image's trace *)
+      let old := concat (snd (ops_run [] (tc_ops tc))) in
+      if tc_flush tc then match_recs (old ++ eager [] ops2) (tc_file tc)
+      else ok_prefix (old ++ eager [] ops2) (tc_file tc) && match_recs old (firstn (length (concat (map (fun r => hdr r ++ r_pl r ++ repeat 0%N (align8 (length (r_pl r)) - length (r_pl r))) old))) (tc_file tc))
+  end.
 (* the header-before-payload window (known defect): whole records followed by one bare header *)
 Definition window_shape (tc : tcase) : bool :=
   let f := tc_file tc in
   (16 <=? length f) && ok_prefix (eager [] (tc_ops tc)) (firstn (length f - 16) f).
 Definition is_dark (s : st) : bool := match pc s with PDark => true | _ => false end.
 Definition tc_in_window (tc : tcase) : bool := in_window (tc_single tc) (tc_state tc).
+
+(* ---- one case of the two-producer tie (c04_rec multi): hook calls of several producers scheduled one at a
+   time, recorder catch-ups in between, one producer killed inside a hook call, the others between two ---- *)
+Inductive mact := AP (t : nat) | AR | AK (t e : nat).
+Record mcase := {
+  mc_cap : nat; mc_ops : list (list op); mc_acts : list mact;
+  mc_shl : list (nat * nat * N); mc_wl : list (nat * nat); mc_files : list (list N) }.
+Definition mcatch_up (M : mst) : mst :=
+  let M1 := mdrain M in
+  iter (length (m_wl M1)) (fun M => match m_wl M with (u, _) :: _ => mwstep u M | [] => M end) M1.
+Fixpoint mt_acts (cap : nat) (groups : list (list (list rec))) (acts : list mact) (M : mst) : mst :=
+  match acts with
+  | [] => M
+  | AR :: r => mt_acts cap groups r (mcatch_up M)
+  | AP t :: r =>
+      match nth t groups [] with
+      | [] => mt_acts cap groups r M
+      | g :: gs =>
+          let s := proj t M in
+          let k := length (p_until_done true false cap (fuel_for (length g)) (length (done s) + length g) s) in
+          mt_acts cap (upd t (fun _ => gs) groups) r (iter k (mstep true cap (MP t)) M)
+      end
+  | AK t e :: r =>
+      match nth t groups [] with
+      | [] => mt_acts cap groups r M
+      | g :: gs =>
+          let s := proj t M in
+          let k := length (p_until_events true false cap (fuel_for (length g)) e (length (done s) + length g) s) in
+          mt_acts cap (upd t (fun _ => []) groups) r (iter k (mstep true cap (MP t)) M)
+      end
+  end.
+Definition mc_groups (mc : mcase) : list (list (list rec)) := map (fun ops => snd (ops_run [] ops)) (mc_ops mc).
+Definition mc_state (mc : mcase) : mst :=
+  mt_acts (mc_cap mc) (mc_groups mc) (mc_acts mc) (minit (map (fun gs => concat gs) (mc_groups mc))).
+Definition mobs (M : mst) : list (nat * nat * N) * list (nat * nat) * list (list N) :=
+  let M1 := mdrain M in
+  let M2 := mflush M1 in
+  (map (fun x => (fst x, snd x, flag_val (b_flag (getb (snd x) (h_bufs (nth (fst x) (m_thr M1) thr0)))))) (m_shl M1),
+   map (fun x => (fst x, b_size (getb (snd x) (h_bufs (nth (fst x) (m_thr M2) thr0))))) (m_wl M2),
+   map h_file (m_thr (mremaining M2))).
+Fixpoint pairs_eqb (a b : list (nat * nat)) : bool :=
+  match a, b with
+  | [], [] => true
+  | (x, y) :: a', (u, v) :: b' => Nat.eqb x u && Nat.eqb y v && pairs_eqb a' b'
+  | _, _ => false
+  end.
+Fixpoint triples_eqb (a b : list (nat * nat * N)) : bool :=
+  match a, b with
+  | [], [] => true
+  | (x, y, z) :: a', (u, v, w) :: b' => Nat.eqb x u && Nat.eqb y v && (z =? w)%N && triples_eqb a' b'
+  | _, _ => false
+  end.
+Fixpoint files_eqb (a b : list (list N)) : bool :=
+  match a, b with
+  | [], [] => true
+  | x :: a', y :: b' => list_eqb x y && files_eqb a' b'
+  | _, _ => false
+  end.
+Definition magrees (mc : mcase) : bool :=
+  let '(a, b, c) := mobs (mc_state mc) in
+  triples_eqb a (mc_shl mc) && pairs_eqb b (mc_wl mc) && files_eqb c (mc_files mc).
+(* the property on the implementation's files: every producer's file is a whole-record prefix of its execution *)
+Definition mok_case (mc : mcase) : bool :=
+  forallb (fun x => ok_prefix (eager [] (fst x)) (snd x)) (combine (mc_ops mc) (mc_files mc))
+  && Nat.eqb (length (mc_files mc)) (length (mc_ops mc)).
 
 (* ---- one case of the liveness tie: messages / SIGCHLD / check_tid_list on real processes ---- *)
 Inductive lev :=
@@ -826,7 +1131,8 @@ Record ecase := {
   e_bytes : list N;               (* <tid>.dat *)
   e_crash1 : bool;                (* the thread died in the SIGSEGV/SIGABRT handler path: open calls included *)
   e_crash2 : bool;                (* ... in the second image *)
-  e_nest : bool }.                (* check nesting (off when the image was replaced by exec) *)
+  e_nest : bool;                  (* check nesting (off when the image was replaced by exec) *)
+  e_free : bool }.                (* no log to compare with (a forked child: it starts with inherited open calls) *)
 Definition expect1 (c : ecase) := filt (e_nt c) (e_maxd c) 0%N None (if e_crash1 c then crash_log (e_log1 c) else e_log1 c).
 Definition expect2 (c : ecase) := filt (e_nt c) (e_maxd c) 0%N None (if e_crash2 c then crash_log (e_log2 c) else e_log2 c).
 (* p = p1 ++ p2, p1 a prefix of the first image's trace, p2 of the second's (complete where a crash
@@ -843,7 +1149,7 @@ Definition ok_e2e (c : ecase) : bool :=
       let p := project (e_ftab c) l in
       times_ok 0 l && (negb (e_nest c) || nest_ok [] l)
       && match e_log2 c with
-         | [] => split_ok c p (length p)
+         | [] => e_free c || split_ok c p (length p)
          | _ => existsb (split_ok c p) (seq 0 (S (length p)))
          end
   end.
